@@ -605,7 +605,7 @@ def replay_chain(exe, failures):
     depths = [d for d in depths if 1 <= d <= 16]
     if not depths:
         return {"status": "unavailable", "summary": "no counterexample inside the depth range that must evaluate"}
-    d = depths[-1]
+    d = 16          # the depth the statement names: chains at least 16 deep evaluate
     progs = [[f"p{i}", f"p{i + 1}"] for i in range(d)] + [[f"p{d}", "1"]]
     out, why = run(exe, "eval", [{"programs": progs, "run": ["p0"], "params": {}}])
     if out is None:
